@@ -24,7 +24,8 @@ from crosshair.tracers import NoTracing
 
 CYC = {cyc!r}
 HLEN = {hlen}
-FIRST_MOD = {first_mod}      # -1: all histories; 0/1: only those whose first class index has this parity (two harnesses in parallel)
+FIRST_MOD = {first_mod}      # -1: all histories; r: only those whose first class index is r modulo FIRST_DIV (several harnesses in parallel)
+FIRST_DIV = {first_div}
 
 def _graph():
     G = nx.DiGraph()
@@ -161,7 +162,7 @@ def history(cs: List[int], so: List[bool], sl: List[bool]) -> bool:
     pre: len(cs) == HLEN and len(so) == HLEN and len(sl) == HLEN
     pre: all(0 <= c < len(CLASSES) for c in cs)
     pre: all(so[i] or not sl[i] for i in range(HLEN))
-    pre: FIRST_MOD < 0 or cs[0] % 2 == FIRST_MOD
+    pre: FIRST_MOD < 0 or cs[0] % FIRST_DIV == FIRST_MOD
     post: _
     """
     with NoTracing():
@@ -188,7 +189,7 @@ history([0] * HLEN, [True] * HLEN, [True] * HLEN)
 
 
 def gen_tasks(tier, seed):
-    tasks = [{"kind": "xh", "cyc": False, "hlen": 2, "name": "dag-histories/even-first", "first_mod": 0}, {"kind": "xh", "cyc": False, "hlen": 2, "name": "dag-histories/odd-first", "first_mod": 1},
+    tasks = [{"kind": "xh", "cyc": False, "hlen": 2, "name": f"dag-histories/first-class-{r}-mod-4", "first_mod": r, "first_div": 4} for r in range(4)] + [
              {"kind": "xh", "cyc": True, "hlen": 2, "name": "cyclic-histories/even-first", "first_mod": 0}, {"kind": "xh", "cyc": True, "hlen": 2, "name": "cyclic-histories/odd-first", "first_mod": 1},
              {"kind": "defaults"}, {"kind": "resolve"}]
     if tier != "quick":
@@ -199,7 +200,7 @@ def gen_tasks(tier, seed):
 
 
 def _src(task):
-    return HARNESS.format(cyc=task["cyc"], hlen=task["hlen"], first_mod=task.get("first_mod", -1))
+    return HARNESS.format(cyc=task["cyc"], hlen=task["hlen"], first_mod=task.get("first_mod", -1), first_div=task.get("first_div", 2))
 
 
 def run_task(task):
